@@ -104,7 +104,11 @@ class Gen:
             bs.sort(key=lambda s: 1 if s.startswith("'") else 0)
             return "Box<dyn %s>" % " + ".join(bs)
         if r < 0.9:
-            return "impl %s" % self.bound(depth - 1, use)
+            b = self.bound(depth - 1, use)
+            if self.rng.random() < 0.4:
+                # a precise-capturing bound names parameters without using them in the sense of the analysis
+                return "impl %s + use<%s>" % (b, self.param(False))
+            return "impl %s" % b
         if r < 0.93:
             # generic arguments on a non-final path segment are uses too
             form = self.rng.choice(["Outer<%s>::Inner", "a::Mk<%s>::Out<u8>", "<u8 as Tr<%s>>::Out", "Outer<%s>::Mid::Inner"])
